@@ -1,0 +1,12 @@
+// Copyright (c) 2020 10X Genomics, Inc. All rights reserved.
+
+//go:build !verif
+
+package main
+
+import "time"
+
+// The run loop's step interval is only adjustable in verification builds.
+func verifStepInterval(d time.Duration) time.Duration {
+	return d
+}
